@@ -66,6 +66,8 @@ func newOracle(grace time.Duration, now func() time.Time) *oracle {
 		FailbackEnabled: true, GracePeriod: grace}, "node-b", ha.RoleStandby, 1, o.mon, zap.NewNop())
 	o.ctl.SetRoleChangeCallback(o.callback)
 	o.ctl.OnFailoverEvent(o.onEvent)
+	// registered BEFORE the controller, so every report is on record before the controller reacts to it
+	o.mon.OnHealthChange(o.onHealth)
 	o.ctl.VerifC14Attach()
 	return o
 }
@@ -80,20 +82,31 @@ func (o *oracle) logf(f string, a ...any) {
 
 // ---- inputs
 
-func (o *oracle) down() {
-	if o.partnerUp {
-		o.hist = append(o.hist, hev{o.now(), false})
-		o.partnerUp = false
-	}
-	o.mon.VerifC14ProbeFailed()
-}
+func (o *oracle) down() { o.mon.VerifC14ProbeFailed() }
 
-func (o *oracle) up() {
-	if !o.partnerUp {
-		o.hist = append(o.hist, hev{o.now(), true})
-		o.partnerUp = true
+func (o *oracle) up() { o.mon.VerifC14ProbeSucceeded() }
+
+// onHealth records what the monitor REPORTS (partner_down / partner_up), in
+// the order it reports it: that is the history "the partner was reported down
+// continuously" is judged on. With thresholds 1 and one probe at a time it is
+// exactly the injected history; with two concurrent probe results (Engine B)
+// it is the order in which the reports were delivered.
+func (o *oracle) onHealth(e ha.HealthEvent) {
+	if o.closed {
+		return
 	}
-	o.mon.VerifC14ProbeSucceeded()
+	switch e.Type {
+	case ha.HealthEventPartnerDown:
+		if o.partnerUp {
+			o.hist = append(o.hist, hev{o.now(), false})
+			o.partnerUp = false
+		}
+	case ha.HealthEventPartnerUp:
+		if !o.partnerUp {
+			o.hist = append(o.hist, hev{o.now(), true})
+			o.partnerUp = true
+		}
+	}
 }
 
 // ---- monitors
